@@ -322,7 +322,7 @@ def run(ctx):
                 # remainder = .0 of the application of take(len) to the input after the header
                 ok = rem[0] == 'field' and rem[2] == '0' and rem[1][0] == 'variant' and rem[1][1][0] == 'call' and rem[1][1][1] == '<indirect>' and rem[1][1][2][0][0] == 'call' \
                     and rem[1][1][2][0][1] == 'nom::bytes::streaming::take'
-            prim = next((t for a, t in o.st.pc if a[0] == 'is' and a[2] == 'TagStructure::Primitive'), None)
+            prim = sem.variant_truth(o.st.pc, lambda v: True, 'TagStructure::Primitive', ['TagStructure::Primitive', 'TagStructure::Constructed'])
             seen.add(prim)
             ctx.add('B4.remainder-after-announced-length', 'primitive=%s' % prim, loc(B.root), ok, 'the remainder returned is not the slice after take(len)')
             fl = dict(st[2]) if st[0] == 'struct' else {}
